@@ -38,8 +38,6 @@ from dask.dataframe.groupby import (
     _head_chunk,
     _non_agg_chunk,
     _normalize_spec,
-    _nunique_df_chunk,
-    _nunique_df_combine,
     _tail_aggregate,
     _tail_chunk,
     _unique_aggregate,
@@ -808,17 +806,37 @@ class Mean(GroupByReduction):
     chunk = staticmethod(_mean_chunk)
 
 
-def nunique_df_combine(dfs, *args, **kwargs):
-    return _nunique_df_combine(concat(dfs), *args, **kwargs)
+def nunique_df_chunk(df, *by, name, dropna=None, **kwargs):
+    try:
+        # A lot faster, but fails if ``by`` contains a Series
+        return df.drop_duplicates(subset=list(by) + [name]).set_index(list(by))
+    except Exception:
+        pass
+    dropna = _as_dict("dropna", dropna)
+    g = _groupby_raise_unaligned(df, by=by, group_keys=True, **dropna)
+    if len(df) > 0:
+        return g[name].unique().explode().to_frame()
+    # groupby-apply for an empty frame results in a frame with no columns
+    grouped = g[[name]].nunique()
+    return grouped.astype(df.dtypes[grouped.columns].to_dict())
 
 
-def nunique_df_aggregate(dfs, levels, name, sort=False):
+def nunique_df_combine(dfs, levels, sort=False, dropna=None):
     df = concat(dfs)
+    dropna = _as_dict("dropna", dropna)
+    g = df.groupby(level=levels, sort=sort, observed=True, **dropna)
+    return g[df.columns[0]].unique().explode().to_frame()
+
+
+def nunique_df_aggregate(dfs, levels, name, sort=False, dropna=None):
+    df = concat(dfs)
+    dropna = _as_dict("dropna", dropna)
+    g = df.groupby(level=levels, sort=sort, observed=True, **dropna)
     if df.ndim == 1:
         # split out reduces to a Series
-        return df.groupby(level=levels, sort=sort, observed=True).nunique()
+        return g.nunique()
     else:
-        return df.groupby(level=levels, sort=sort, observed=True)[name].nunique()
+        return g[name].nunique()
 
 
 class NUnique(SingleAggregation):
@@ -829,8 +847,8 @@ class NUnique(SingleAggregation):
     def chunk(df, *by, **kwargs):
         if df.ndim == 1:
             df = df.to_frame()
-            kwargs = dict(name=df.columns[0], levels=_determine_levels(by))
-        return _nunique_df_chunk(df, *by, **kwargs)
+            kwargs = dict(kwargs, name=df.columns[0])
+        return nunique_df_chunk(df, *by, **kwargs)
 
     @functools.cached_property
     def chunk_kwargs(self) -> dict:
@@ -840,11 +858,11 @@ class NUnique(SingleAggregation):
 
     @functools.cached_property
     def aggregate_kwargs(self) -> dict:
-        return {"levels": self.levels, "name": self._slice}
+        return {"name": self._slice, **self.combine_kwargs}
 
     @functools.cached_property
     def combine_kwargs(self):
-        return {"levels": self.levels}
+        return {"levels": self.levels, **_as_dict("dropna", self.dropna)}
 
 
 class Head(SingleAggregation):
